@@ -634,11 +634,13 @@ class OpGuard(object):
             self.LIMIT = limit
 
     def _alarm(self, signum, frame):
-        raise Watchdog("library call exceeded %.1fs" % self.seconds)
+        raise Watchdog("library call exceeded %.1fs of CPU time" % self.seconds)
 
     def __enter__(self):
-        self._old = signal.signal(signal.SIGALRM, self._alarm)
-        signal.setitimer(signal.ITIMER_REAL, self.seconds)
+        # CPU time of this process, not wall-clock time: a call that spins burns CPU, while a worker that is
+        # merely descheduled on a busy machine must not look like a hang
+        self._old = signal.signal(signal.SIGVTALRM, self._alarm)
+        signal.setitimer(signal.ITIMER_VIRTUAL, self.seconds)
         self._oldlimit = sys.getrecursionlimit()
         depth = 0
         f = sys._getframe()
@@ -657,7 +659,7 @@ class OpGuard(object):
         return self
 
     def __exit__(self, *exc):
-        signal.setitimer(signal.ITIMER_REAL, 0)
-        signal.signal(signal.SIGALRM, self._old)
+        signal.setitimer(signal.ITIMER_VIRTUAL, 0)
+        signal.signal(signal.SIGVTALRM, self._old)
         sys.setrecursionlimit(self._oldlimit)
         return False
